@@ -40,6 +40,23 @@ def rows_scalar():
         for fw, w in ((4, 4), (4, 3), (4, 5), (64, 64), (7, 7)):
             src = "bits Bb:\n  0 [+%d]  %s:%d  x\n" % (fw, T, w)
             out.append(("explicit-size-bits %s %d:%d" % (T, fw, w), src, fw == w))
+    # the same boundaries with the field *used* (bounds of a reference are computed before the width is checked)
+    for T in ("UInt", "Int", "Bcd"):
+        for use in ("  let y = $max(x, 1)\n", "  if x == 0:\n    %s [+1]  %s  z\n", "  let y = x\n  let w = y == 2\n"):
+            for w in (0, 1, 2, 63, 64, 65):
+                u = use % (70, "Flag") if "%s" in use else use
+                out.append(("scalar-bits-used %s %d %r" % (T, w, use[:9]), "bits Bb:\n  0 [+%d]  %s  x\n%s" % (w, T, u), 1 <= w <= 64 and not (w == 65)) if "if x" not in use
+                           else ("scalar-bits-used %s %d if" % (T, w), "bits Bb:\n  0 [+%d]  %s  x\n  if x == 0:\n    %d [+1]  Flag  z\n" % (w, T, w), 1 <= w <= 63))
+            for n in (0, 1, 8, 9):
+                u = use % (n, "UInt") if "%s" in use else use
+                out.append(("scalar-bytes-used %s %d %r" % (T, n, use[:9]), LE + "struct Ss:\n  0 [+%d]  %s  x\n%s" % (n, T, u), 1 <= n <= 8))
+        for neg in ("-2", "0-1", "- 1"):
+            out.append(("scalar-negative-size %s %s" % (T, neg), "bits Bb:\n  0 [+%s]  %s  x\n  let y = x + 1\n" % (neg, T), False))
+            out.append(("scalar-negative-size-bytes %s %s" % (T, neg), LE + "struct Ss:\n  0 [+%s]  %s  x\n  let y = x\n" % (neg, T), False))
+    for T in ("UInt", "Int"):
+        for w in (0, 1, 8, 63, 64, 65):
+            for use in ("", "  let q = p\n  let r = $max(q, 3)\n", "  if p == 0:\n    1 [+1]  UInt  z\n"):
+                out.append(("parameter-width %s:%d %r" % (T, w, use[:8]), LE + "struct Ss(p: %s:%d):\n  0 [+1]  UInt  x\n%s" % (T, w, use), 1 <= w <= 64))
     for n in range(1, 10):
         out.append(("float-bytes %d" % n, LE + "struct Ss:\n  0 [+%d]  Float  x\n" % n, n in (4, 8)))
     for w in (16, 32, 33, 64):
@@ -173,6 +190,21 @@ def rows_byte_order():
                         eff = attr or ds or dm or "Null"
                         ok = eff in ("LittleEndian", "BigEndian") or n == 1
                         out.append(("byte-order %s n=%d attr=%s struct=%s module=%s" % (kind, n, attr, ds, dm), "\n".join(lines) + "\n", ok))
+    # anonymous bits whose members use fewer bits than the field has: the field is still an n-byte value
+    for n in range(1, 9):
+        for used in sorted({1, 8, min(8 * n, 64)}):
+            for attr in (None, "LittleEndian", "Null"):
+                for dm in (None, "BigEndian"):
+                    lines = []
+                    if dm:
+                        lines.append('[$default byte_order: "%s"]' % dm)
+                    lines += ["struct Ss:", "  0 [+%d]  bits:" % n]
+                    if attr:
+                        lines.append('    [byte_order: "%s"]' % attr)
+                    lines.append("    0 [+%d]  UInt  x" % used)
+                    eff = attr or dm or "Null"
+                    out.append(("byte-order anon n=%d used=%d attr=%s module=%s" % (n, used, attr, dm), "\n".join(lines) + "\n",
+                                eff in ("LittleEndian", "BigEndian") or n == 1))
     # a $default applies to its own subtree only: neither to later siblings nor to imported modules
     out.append(("byte-order default-does-not-leak-to-later-struct",
                 'struct Aa:\n  [$default byte_order: "BigEndian"]\n  0 [+2]  UInt  x\nstruct Bb:\n  0 [+2]  UInt  y\n', False))
@@ -275,6 +307,16 @@ def rows_reserved():
         if errs or len(toks) != 2 or toks[0].symbol not in ("SnakeWord", "CamelWord", "ShoutyWord"):
             continue          # keywords of Emboss itself (struct, if, ...) are syntax errors anyway; not this rule
         out.append(("reserved %s as %s" % (w, kind), src % w, False))
+        if kind == "field":
+            out.append(("reserved %s as parameter" % w, LE + "struct Ss(%s: UInt:8):\n  0 [+1]  UInt  x\n" % w, False))
+            out.append(("near-miss %sx as parameter" % w, LE + "struct Ss(%sx: UInt:8):\n  0 [+1]  UInt  x\n" % w, (w + "x") not in words))
+        if kind == "type":
+            out.append(("reserved %s as nested type" % w, LE + "struct Oo:\n  struct %s:\n    0 [+1]  UInt  x\n  0 [+1]  UInt  y\n" % w, False))
+            out.append(("reserved %s as nested enum" % w, LE + "struct Oo:\n  enum %s:\n    AA = 1\n  0 [+1]  UInt  y\n" % w, False))
+            out.append(("reserved %s as doubly nested type" % w, LE + "struct Oo:\n  struct Mm:\n    bits %s:\n      0 [+8]  UInt  x\n    0 [+1]  UInt  z\n  0 [+1]  UInt  y\n" % w, False))
+            snake = re.sub(r"(?<!^)([A-Z])", r"_\1", w).lower()
+            if re.fullmatch(r"[a-z][a-z_0-9]*", snake) and snake not in words:
+                out.append(("reserved %s as inline enum type via field %s" % (w, snake), LE + "struct Oo:\n  0 [+1]  enum  %s:\n    AA = 1\n" % snake, False))
         near = w + ("x" if kind == "field" else ("Xx" if kind == "type" else "_X"))
         if near not in words:
             out.append(("near-miss %s as %s" % (near, kind), src % near, True))
